@@ -141,6 +141,17 @@ func (x *reqChecker) walk(typ string, setRef int, provided *selNode, isRoot, und
 					x.bad("%s.%s is @external in subgraph %s and not provided on this path", typ, name, x.g.Name)
 				}
 			}
+			if sup.Kind == KInterface {
+				// selected on the interface: every implementer of this subgraph resolves it itself, so
+				// none of them may need @requires inputs for it
+				for _, impl := range x.c.Super.PossibleTypes(typ) {
+					if ist := x.g.Type(impl); ist != nil {
+						if isf := ist.Field(name); isf != nil && isf.Requires != "" {
+							x.bad("%s.%s is selected on the interface but %s.%s has @requires(%s) in subgraph %s", typ, name, impl, name, isf.Requires, x.g.Name)
+						}
+					}
+				}
+			}
 			if sf.Requires != "" && !underEntities {
 				// the inputs of a @requires field are @external here: the subgraph can compute the
 				// field only from a representation, i.e. directly under an _entities fragment
